@@ -20,7 +20,7 @@ tc: /c/
 
 S : Seq ;
 Seq<Top> : Elem | Seq Elem ;
-Elem<Top, NoB> :
+Elem<Top> :
     ta
   | [!NoB] tb
   | [Top] tc Elem<+NoB, ~Top>
